@@ -163,6 +163,9 @@ def build(spec, fault=None):
                 sd *= 1.0 + 0.4 * ((k * 0.6180339887) % 1.0)      # deterministic in the call index, no draw from numpy's generator
             calls["rets"][k] = (y, sd)
             return y, sd
+        if spec.get("ydtype"):
+            # the value as a NumPy scalar of another real type (integer-valued targets: counts, discrete losses); the value itself is unchanged
+            y = getattr(np, spec["ydtype"])(y)
         calls["rets"][k] = (y, None)
         return y
 
